@@ -1,6 +1,7 @@
 (* C02 bulk evaluator: runs the EXTRACTED Coq checker (Model/C02Check.v: check_case / diag_bytes,
    instantiated with the tables of Generated/C02Tables.v) on cases read from stdin.
    Input lines :  <id> <span> <items|-> <dense hex|-> <readable hex|-> <ref hex|->
+                  op <id> <polish tree> <dense hex> <readable hex>          (operator trees)
    Output lines:  bad <id> <diag>     for every case where check_case is false;   done <count> *)
 open C02_model
 
@@ -56,6 +57,24 @@ let item_of s =
     in
     { imode = mode; itext = text }
 
+(* operator trees in Polish notation: B<i>,l,r  U<i>,x  P,x  A<k> *)
+let parse_polish s =
+  let toks = ref (String.split_on_char ',' s) in
+  let next () = match !toks with t :: r -> toks := r; t | [] -> failwith "polish: short" in
+  let rec go () =
+    let t = next () in
+    let arg () = int_of_string (String.sub t 1 (String.length t - 1)) in
+    match t.[0] with
+    | 'A' -> EAtom (n_of_int (arg ()))
+    | 'B' -> let o = List.nth binops (arg ()) in let l = go () in let r = go () in EBin (o, l, r)
+    | 'U' -> let u = List.nth unops (arg ()) in EUn (u, go ())
+    | 'P' -> EParen (go ())
+    | _ -> failwith "polish: bad token"
+  in
+  let e = go () in
+  if !toks <> [] then failwith "polish: trailing";
+  e
+
 let () =
   let count = ref 0 in
   (try
@@ -70,6 +89,10 @@ let () =
          in
          incr count;
          if not (c02_check c) then Printf.printf "bad %s %s\n" id (string_of_bytes (c02_diag c))
+       | [ "op"; id; polish; dense; readable ] ->
+         let c = { p_expr = parse_polish polish; p_dense = bytes_of_hex dense; p_readable = bytes_of_hex readable } in
+         incr count;
+         if not (c02_pcheck c) then Printf.printf "bad %s %s\n" id (string_of_bytes (c02_pdiag c))
        | _ -> ()
      done
    with End_of_file -> ());
